@@ -211,8 +211,9 @@ func cmdSkipSweep(args []string) {
 	r := rand.New(rand.NewSource(*seed))
 	// field numbers of every tag width that the type does not declare
 	var nums []int
-	for _, n := range []int{1, 15, 16, 2047, 2048, 262143, 262144, 33554431, 33554432, 536870911} {
-		for md.Fields().ByNumber(protowire.Number(n)) != nil || md.ReservedRanges().Has(protowire.Number(n)) || (n >= 19000 && n <= 19999) {
+	// (19000..19999 cannot be declared in a .proto file but are ordinary numbers on the wire)
+	for _, n := range []int{1, 15, 16, 2047, 2048, 18999, 19000, 19999, 20000, 262143, 262144, 33554431, 33554432, 536870911} {
+		for md.Fields().ByNumber(protowire.Number(n)) != nil || md.ReservedRanges().Has(protowire.Number(n)) {
 			n--
 		}
 		if n >= 1 {
